@@ -10,6 +10,7 @@ import (
 	"strings"
 
 	"github.com/rs/zerolog"
+	zlog "github.com/rs/zerolog/log"
 
 	"pcverif/fw"
 	_ "pcverif/props"
@@ -21,7 +22,9 @@ func main() {
 		fmt.Println("usage: pcverif run <ID> [--tier t] [--seed n] | child ... | replay <file> | list")
 		os.Exit(2)
 	}
-	zerolog.SetGlobalLevel(zerolog.Disabled)
+	// silence the supervisor's own diagnostics only: process log files are
+	// written through zerolog loggers too and must keep working
+	zlog.Logger = zerolog.Nop()
 	sim.Install()
 	if d := os.Getenv("PCVERIF_SCRATCH"); d != "" {
 		sim.Scratch = d
